@@ -273,7 +273,7 @@ fn gen_deco(g: &mut G, ex: &Excl) -> Deco {
 }
 
 pub fn cfg() -> GenCfg {
-    GenCfg { max_stmts: 5, max_helpers: 2, ..GenCfg::default() }
+    GenCfg { max_stmts: 5, max_helpers: 2, opt_stress: true, ..GenCfg::default() }
 }
 
 pub fn gen_case(g: &mut G, cfg: &GenCfg, n_inits: usize, ex: &Excl) -> Case {
